@@ -118,6 +118,7 @@ func (id ID) MarshalJSON() ([]byte, error) {
 func (id *ID) UnmarshalJSON(data []byte) error {
 	str := string(data[:])
 	if len(str) < 2 {
+		id.value.v.SetInt64(0)
 		return fmt.Errorf("data size less than min.")
 	}
 	str = str[1 : len(str)-1]
